@@ -452,6 +452,13 @@ pub fn gen_env(mt: &str, src: &mut Src) -> EnvCase {
                         "{2:O1031200",
                         "{1:F01FAKEBANKAXXX",
                         "{5:{MAC:00000000",
+                        // balanced: complete blocks with modelled tags inside a field value
+                        "{3:{108:INNERREF}}",
+                        "{3:{108:INNERREF}{121:180f1e65-90e0-44d5-a49a-92b55eb3025f}}",
+                        "{5:{CHK:123456789ABC}}",
+                        "{5:{TNG}}",
+                        "{2:I103BANKDEFFAXXXN}",
+                        "{1:F01FAKEDEFFAXXX0000000000}",
                     ])
                     .to_string();
             }
@@ -459,6 +466,23 @@ pub fn gen_env(mt: &str, src: &mut Src) -> EnvCase {
         _ => {}
     }
     c
+}
+
+/// a value-less trailer tag counts as read when the parsed trailer says so
+fn flag_held(header_json: &Value, tag: &str) -> bool {
+    let key = match tag {
+        "TNG" => "test_and_training",
+        "DLM" => "delayed_message",
+        "PDE" => "possible_duplicate_emission",
+        "PDM" => "possible_duplicate_message",
+        "SYS" => "system_originated_message",
+        _ => return false,
+    };
+    match header_json.get(key) {
+        Some(Value::Bool(b)) => *b,
+        Some(Value::Null) | None => false,
+        Some(_) => true,
+    }
 }
 
 fn recognised(header_json: &Value, value: &str) -> bool {
@@ -562,7 +586,7 @@ pub fn oracle(c: &EnvCase, obs: &mut Obs) -> Vec<Violation> {
                     continue;
                 }
                 let held = if v.is_empty() {
-                    hj.as_object().map(|o| !o.is_empty()).unwrap_or(false) && false
+                    flag_held(&hj, t)
                 } else {
                     recognised(&hj, v)
                 };
@@ -730,7 +754,7 @@ pub fn hdr_oracle(c: &HdrCase, obs: &mut Obs) -> Vec<Violation> {
                         format!("C10|direct|block{}|{}|changed", c.kind, t),
                         format!("{:?} displayed as {:?}", c.text, disp),
                     ));
-                } else if !v.is_empty() && recognised(&hj, &v) {
+                } else if (!v.is_empty() && recognised(&hj, &v)) || (v.is_empty() && flag_held(&hj, &t)) {
                     out.push(viol(
                         format!("C10|direct|block{}|{}|dropped", c.kind, t),
                         format!("tag {t} read into {} but Display gives {:?}", hj, disp),
